@@ -294,9 +294,9 @@ class Verifier(Engine):
         s.set('smt.auto_config', False)
         if seed: s.set('random_seed', seed % 1000)
         for f in o.pc:
-            if o.kind == 'smoke' and self.has_quant(f): continue
+            if o.kind in ('smoke', 'reachcall') and self.has_quant(f): continue
             s.add(f)
-        if o.kind != 'smoke':
+        if o.kind not in ('smoke', 'reachcall'):
             for f in self.global_axioms: s.add(f)
         s.add(Not(And(*goals)) if len(goals) > 1 else Not(goals[0]))
         r = s.check()
@@ -367,7 +367,7 @@ def _solve_group(idxs):
         for f in v.global_axioms: inc.add(f)
     for i, o in zip(idxs, obs):
         done = False
-        if inc is not None and o.expect == 'unsat' and o.kind != 'smoke':
+        if inc is not None and o.expect == 'unsat' and o.kind not in ('smoke', 'reachcall'):
             t = time.time()
             inc.push(); inc.add(Not(o.goal))
             r = inc.check()
